@@ -10,22 +10,30 @@ EXTENDS GoalsManager, Json, IOUtils
 RealGraphs == ndJsonDeserialize(IOEnv.GRAPHS_FILE)
 SeqToSet(q) == {q[i] : i \in DOMAIN q}
 
-VARIABLES gi, hist
-mcvars == <<roots, edges, current, covered, objs, gi, hist>>
+VARIABLES gi, hist,
+          pg, ph     \* the goals picked for the next update (0 = not yet / none)
+mcvars == <<roots, edges, current, covered, objs, gi, hist, pg, ph>>
 
 MCInit == /\ gi \in 1..Len(RealGraphs)
           /\ roots = SeqToSet(RealGraphs[gi].roots)
           /\ edges = SeqToSet(RealGraphs[gi].edges)
           /\ current = roots /\ covered = {} /\ objs = roots
-          /\ hist = <<>>
+          /\ hist = <<>> /\ pg = 0 /\ ph = 0
 
 AllGoals == 1..RealGraphs[gi].n
-Choices == {{g, h} : g \in current, h \in AllGoals} \cup {{h} : h \in AllGoals \ current}
-
-MCNext == /\ current # {}
-          /\ \E S \in Choices :
-               /\ Update(S)
-               /\ hist' = Append(hist, S)
-          /\ UNCHANGED gi
+\* The choice of an update is split into cheap steps (TLC's simulator computes every successor
+\* before it picks one): pick a current goal (or -1: none), pick any further goal (or -1: none),
+\* then do the update.
+PickG == /\ current # {} /\ pg = 0
+         /\ pg' \in current \cup {-1}
+         /\ UNCHANGED <<roots, edges, current, covered, objs, gi, hist, ph>>
+PickH == /\ pg # 0 /\ ph = 0
+         /\ ph' \in IF pg = -1 THEN AllGoals \ current ELSE AllGoals \cup {-1}
+         /\ UNCHANGED <<roots, edges, current, covered, objs, gi, hist, pg>>
+DoUpdate == /\ pg # 0 /\ ph # 0
+            /\ LET S == {pg, ph} \ {-1} IN Update(S) /\ hist' = Append(hist, S)
+            /\ pg' = 0 /\ ph' = 0
+            /\ UNCHANGED gi
+MCNext == PickG \/ PickH \/ DoUpdate
 MCSpec == MCInit /\ [][MCNext]_mcvars
 =============================================================================
